@@ -566,6 +566,8 @@ def classify_exception(e, toks, cfg):
                                 try:
                                     real_filter([dict(t, data={key: v})], cfg)
                                 except KeyError:
+                                    # fixed in /repo 1347e6e (if ... elif): no longer a known finding, so any
+                                    # recurrence is reported as a VIOLATION under this precise class
                                     return "filter-raises-KeyError:data-url-when-data-not-in-allowed-protocols", \
                                         {"token": repr(dict(t, data={key: v}))[:400]}
                     else:
@@ -728,6 +730,10 @@ def run(ctx):
         ctx.case("san:css", reqs[-1], nontrivial=bool(o), sample=("css %r -> %r" % (st, o)) if o else None)
 
     # ---- (4) whole streams
+    # regression of the fixed finding C09-keyerror-data-protocol (1347e6e): a data: URL when 'data' is not an allowed protocol
+    for html in ('<a href="data:x">y</a>', '<img src="data:text/html,x">', '<a href="DATA:image/png,x">y</a>'):
+        toks = gen.walk_real(gen.parse_real(html, tb="etree", fragment="div"), "etree")
+        one_stream(ctx, toks, dict(D, allowed_protocols=frozenset(["http", "https"])), reqs, reals, "regression-1347e6e")
     for i in range(ctx.scale(2500, 60000)):
         cfg = configs[i % len(configs)] if i % 2 else None
         r = i % 5
